@@ -19,7 +19,7 @@ PROPERTY = 'C05'
 RULE = ('Dense-time past fragment (once/historically/since bounded and unbounded, Boolean, arithmetic, predicates) and a pastified lane '
         '(bounded eventually/always, pastify() first) on grid signals of up to 6 samples per variable; a schedule cuts the input into '
         'successive update() calls: all at once, one sample per update, random common cut instants, and per-variable independent cuts '
-        '(one operand runs ahead); lanes for unbounded operators under arbitrary schedules, bounded / pastified operators in one update and in several updates; for one-variable cases with <= 5 samples ALL 2^(n-1) schedules are enumerated for a fixed family of 12 formulas; lane skewed: 34-70 samples per variable, one variable delivered completely (or in one update) before the others, so that two-operand nodes keep a long backlog; in the per-variable schedules a variable without new samples is either listed with an empty list or (after its first mention) left out of the call. Oracle: (i) every '
+        '(one operand runs ahead); lanes for unbounded operators under arbitrary schedules, bounded / pastified operators in one update and in several updates; for one-variable cases with <= 5 samples ALL 2^(n-1) schedules are enumerated for a fixed family of 12 formulas; lane skewed: 34-70 samples per variable, one variable delivered completely (or in one update) before the others, so that two-operand nodes keep a long backlog; in the per-variable schedules a variable without new samples is either listed with an empty list or (after its first mention) left out of the call. lane far_twins: two bounded past operators over one operand with bounds of 10^6..10^8 time units that differ in the seventh or a later digit, compared with the dense-time offline monitor of rtamt itself (the grid reference would need 10^7 cells). Oracle: (i) every '
         'returned element is a [time, value] pair with finite time and the concatenation has non-decreasing time stamps; (ii) read as a '
         'step function it equals the grid reference R-ct (shifted by the horizon after pastify) at every cell start / midpoint it '
         'covers; (iii) two schedules of the same case agree wherever both cover. Non-trivial = >= 2 update calls, non-empty output and '
@@ -397,7 +397,83 @@ def near_twin_cases(tier):
     return mk()
 
 
+def far_twin_cases(tier):
+    """Two bounded past operators over the same operand whose bounds are of the order of 10^6 .. 10^7 time units and differ
+    only in the seventh or a later significant digit (operators and cached values of the online monitor are keyed by printed
+    name); a short signal with samples around time 0 and around the bound."""
+    from hypothesis import strategies as st2
+
+    @st2.composite
+    def mk(draw):
+        B = draw(st2.sampled_from([4000000, 8000000, 40000004, 4194304, 12345678 * 4, 400000000]))     # cells of 1/4
+        d1, d2 = draw(st2.sampled_from([(0, 1), (1, 0), (0, 4), (4, 5), (2, 3), (0, 0), (8, 4)]))
+        a_kind = draw(st2.sampled_from(['zero', 'zero', 'small', 'far', 'far_twin']))
+        a1, a2 = {'zero': (0, 0), 'small': (1, 4), 'far': (B - 8, B - 8), 'far_twin': (B - 8, B - 7)}[a_kind]
+        ops = draw(st2.sampled_from([('once', 'once'), ('historically', 'historically'), ('once', 'historically'), ('once', 'once')]))
+        g = draw(st2.sampled_from([('var', 'x'), ('pred', '>=', ('var', 'x'), ('const', 1.0))]))
+        k = 0
+        sig = []
+        for _ in range(draw(st2.integers(1, 4))):
+            sig.append([k, draw(st2.sampled_from([0.0, 1.0, -1.0, 2.0, 5.0, -3.0]))])
+            k += draw(st2.sampled_from([1, 2, 4, 7]))
+        k = B - draw(st2.sampled_from([9, 6, 3, 1, 0]))
+        for _ in range(draw(st2.integers(4, 12))):
+            sig.append([k, draw(st2.sampled_from([0.0, 1.0, -1.0, 2.0, 5.0, -3.0]))])
+            k += draw(st2.sampled_from([1, 1, 2, 3, 4]))
+        n = len(sig)
+        return {'ops': list(ops), 'b': [B + d1, B + d2], 'a': [a1, a2], 'g': g, 'join': draw(st2.sampled_from(['and', 'or', 'implies'])),
+                'neg': draw(st2.booleans()), 'signal': sig,
+                'cuts': sorted(set(draw(st2.lists(st2.integers(0, n - 1), min_size=0, max_size=5)))) if draw(st2.booleans()) else list(range(n))}
+    return mk()
+
+
+def check_far_twins(case):
+    q = Fraction(1, 4)
+    g = from_json(case['g'])
+    l = ('tun', case['ops'][0], case['a'][0], case['b'][0], g)
+    r = ('tun', case['ops'][1], case['a'][1], case['b'][1], g)
+    if case['neg']:
+        r = ('un', 'not', r)
+    f = ('bin', case['join'], l, r)
+    labels = ['far-twins', 'join:' + case['join']]
+    text = dense_text(f, q)
+    sig_t = {'x': [[float(Fraction(k) * q), float(x)] for k, x in case['signal']]}
+    cuts = [sig_t['x'][i][0] for i in case['cuts'] if i < len(sig_t['x'])]
+    batches = split_common(sig_t, cuts)
+    off = run_ct_off(text, ['x'], sig_t)
+    on = run_schedule(text, ['x'], batches, False)
+    desc = 'spec: %s\nsignal: %s\nschedule: %s' % (text, sig_t, batches)
+    if off[0] != 'ok':
+        return DISCARD('offline-raises(C17):' + off[1], labels)
+    if on[0] != 'ok':
+        return FAIL('far-twins-online-raises:%s' % on[1], desc + '\nonline run raised %s: %s at %s\noffline returns %r' % (on[1], on[3], on[4], off[1]), labels)
+    out = concat(on[1])
+    msg = check_shape(out) or check_shape(off[1])
+    if msg:
+        return FAIL('shape', desc + '\n' + msg, labels)
+    if not out:
+        return PASS(False, labels + ['empty-output'])
+    lo, hi = out[0][0], out[-1][0]
+    stamps = sorted(set([p[0] for p in out] + [p[0] for p in off[1]]))
+    pts = []
+    for i, t in enumerate(stamps):
+        pts.append(t)
+        if i + 1 < len(stamps):
+            pts.append((t + stamps[i + 1]) / 2.0)
+    compared = 0
+    for t in pts:
+        if t < lo or t > hi or t > sig_t['x'][-1][0]:
+            continue
+        a, b = step_at(out, t), step_at(off[1], t)
+        compared += 1
+        if a is None or b is None or not same(a, b, False):
+            return FAIL('far-twins:online-differs-from-offline', desc + '\nonline (concatenated): %r\noffline: %r\nat t=%r: online %r, offline %r' % (
+                out, off[1], t, a, b), labels)
+    return PASS(compared >= 3 and case['b'][0] != case['b'][1], labels)
+
+
 LANES = [
+    Lane('far_twins', far_twin_cases, check_far_twins, 1000, 10000, None),
     Lane('near_twins', near_twin_cases, check, 1200, 15000, candidates),
     Lane('long_chunked', long_cases, check, 600, 8000, candidates),
     Lane('skewed', skewed_cases, check, 800, 10000, candidates),
